@@ -1,0 +1,55 @@
+#pragma once
+
+/**
+ * Verification hooks.
+ *
+ * Compiled in only with -DCOLOQUINTE_VERIF; without the define every macro
+ * below expands to nothing and the library is unchanged.
+ *
+ * With the define, the library calls out to a function provided by the
+ * verification harness at a few synchronisation points of the parallel
+ * lower-bound solve, so that a deterministic scheduler can decide which of the
+ * two solver threads advances.
+ */
+#ifdef COLOQUINTE_VERIF
+
+extern "C" void coloquinte_verif_point(int site, const void *obj);
+
+namespace coloquinte {
+enum VerifSite {
+  VERIF_LB_BEGIN = 1,
+  VERIF_LB_JOINED = 2,
+  VERIF_SOLVE_BEGIN = 10,
+  VERIF_SOLVE_BUILT = 11,
+  VERIF_SOLVE_PENALISED = 12,
+  VERIF_SOLVE_ASSEMBLED = 13,
+  VERIF_SOLVE_END = 14
+};
+
+struct VerifScope {
+  VerifScope(int beginSite, int endSite, const void *obj)
+      : endSite_(endSite), obj_(obj) {
+    coloquinte_verif_point(beginSite, obj);
+  }
+  ~VerifScope() { coloquinte_verif_point(endSite_, obj_); }
+  VerifScope(const VerifScope &) = delete;
+  VerifScope &operator=(const VerifScope &) = delete;
+
+ private:
+  int endSite_;
+  const void *obj_;
+};
+}  // namespace coloquinte
+
+#define COLOQUINTE_VERIF_POINT(site, obj) \
+  coloquinte_verif_point(::coloquinte::site, obj)
+#define COLOQUINTE_VERIF_SCOPE(beginSite, endSite, obj)                  \
+  ::coloquinte::VerifScope coloquinteVerifScope_(::coloquinte::beginSite, \
+                                                 ::coloquinte::endSite, obj)
+
+#else
+
+#define COLOQUINTE_VERIF_POINT(site, obj) ((void)0)
+#define COLOQUINTE_VERIF_SCOPE(beginSite, endSite, obj) ((void)0)
+
+#endif
